@@ -7,17 +7,11 @@ import TaRs.Lemmas.Core.RateOfChange
 import TaRs.Gen.RateOfChange
 import TaRs.Lemmas.RsLemmas
 import TaRs.Lemmas.Total.RateOfChange
+import TaRs.Lemmas.Bar.RateOfChange
 namespace TaRs.Gen.RateOfChange
 open TaRs TaRs.Rs
 
 variable {F : Type} [Scalar F]
-
-/-- wiring of the bar path: WHICH field of the bar `next(&bar)` reads (a value-level fact, hence
-    here and not among the value-agnostic totality lemmas) -/
-theorem nextBar_eq (s : RateOfChange F) (b : Bar F) : s.nextBar b = s.next b.close := by
-  unfold nextBar
-  try simp only [gen_helper]
-  cases s.next b.close <;> rfl
 
 /-- Normal form of one `next` on a well-formed state (`v` = the slot under the cursor, `v0` =
     slot 0).  This is the ONLY fact about `next` proved by executing the generated body; it does
